@@ -85,9 +85,11 @@ PROPS = {
         "kani": [{"name": "c11", "module": "c11_adapters.rs", "slice_file": "value.rs", "slices": {},
                   "harnesses": ["c11_signed_adapters", "c11_unsigned_adapters", "c11_float_bool_unit_option_adapters", "c11_to_i64"]},
                  {"name": "c11y", "module": "c11_yaml.rs", "slice_file": "yaml.rs", "slices": {},
-                  "harnesses": ["c11_yaml_unsigned", "c11_yaml_signed", "c11_yaml_float_bool_null"]}],
-        "explanation": "Kani (complete: loop-free, full domain of every primitive) on the real macro-generated AsValue impls and on the real serde_yaml adapter (yaml.rs: every u64 / i64 / f64 number, booleans, null): kind, numeric value and signedness are preserved; Verus: Object::find depends on a document only through Object::get (its contract is stated over obj_get), and solve_expression's postcondition res == sem3(e, ids, document.model()) makes the verdict a function of the document model alone",
-        "assumptions": ["container adapters (Vec, HashSet, HashMap), the serde_json adapter (behind the json feature; textually the same ladder as yaml.rs) and the Object impls of Mapping / Map are not under contract (iterator adapters and external types)"],
+                  "harnesses": ["c11_yaml_unsigned", "c11_yaml_signed", "c11_yaml_float_bool_null"]},
+                 {"name": "c11j", "module": "c11_json.rs", "slice_file": "json.rs", "slices": {}, "extra": ["--features", "json"],
+                  "harnesses": ["c11_json_unsigned", "c11_json_signed", "c11_json_float_bool_null"]}],
+        "explanation": "Kani (complete: loop-free, full domain of every primitive) on the real macro-generated AsValue impls and on the real serde_yaml and serde_json adapters (yaml.rs, json.rs: every u64 / i64 / f64 number, booleans, null): kind, numeric value and signedness are preserved; Verus: Object::find depends on a document only through Object::get (its contract is stated over obj_get), and solve_expression's postcondition res == sem3(e, ids, document.model()) makes the verdict a function of the document model alone",
+        "assumptions": ["container adapters (Vec, HashSet, HashMap), the Object impls of Mapping / Map are not under contract (iterator adapters and external types)"],
     },
     "C12": {
         "units": {"solver": ["solve_expression", "solve", "match_all", "match_of", "search", "slow_aho", "matches"], "paths": ["ObjectV::find", "ObjectVS::find"], "frame": FRAME_FNS},
